@@ -43,7 +43,7 @@ def class_F9(rules):
 # implementation run of the correspondences switches that preprocessing off (worker.do_solve), so head formulas with &final / >>
 # and head formulas in the final part are generated and compared like all others; the two findings are identified by their
 # specific inputs (corpus/C04/F10_*.json, F14*.json), which are replayed under clasp's DEFAULT configuration.
-CLASSES = {'F9': class_F9}
+CLASSES = {}      # F9 was repaired (ed73928): no input class is excluded from generation any more
 
 
 def open_findings(prop=None):
